@@ -91,7 +91,8 @@ def _key_for(x: dict) -> str:
     sd = rec.get("site_drive")
     dark = c["dark"] if c["spe"] else [False] * c["phys"]["n"]
     required = [a for a in Q.site_order(c) if not dark[a]]          # the requirement's site order, not the code's belief
-    if b == "mps" and c["reorder"] and sd is not None and sd != required:
+    si = rec.get("site_imat")
+    if b == "mps" and c["reorder"] and sd is not None and (sd != required or (si is not None and len(si) >= 2 and si != required)):
         return "mps:reorder:per-atom-drives-not-in-site-order"
     return f"{b}:{vr}" + (":reorder" if c["reorder"] else "") + (":dark-atoms" if c["spe"] else "") + (":initial-state" if c["given"] else "")
 
@@ -185,7 +186,7 @@ def _run_natural(ctx: Ctx, alpha: float) -> dict:
 
     rng = random.Random(ctx.seed * 7919 + 3)
     sizes = ctx.pick([6, 8, 10], [6, 8, 10, 12, 14, 16])
-    cases = _natural_cases(rng, sizes, ctx.pick(1, 3))
+    cases = _natural_cases(rng, sizes, ctx.pick(2, 4))
     outs = {o["id"]: o for o in pmap(Q.run_case, cases)}
     for c in cases:
         o = outs[c["id"]]
